@@ -100,4 +100,62 @@ theorem setup_complete (K : Bytes) (db : DB) (t : Tape) (hK : (K.length : Int) =
   obtain ⟨L, t', hL, _⟩ := encDb_complete cfg lv hl hr K db 0 t hK hpack (by simpa using hs)
   exact ⟨buildTable L, t', by simp [setup, hL, bind, Except.bind, pure, Except.pure]⟩
 
+omit hr in
+/-- the other side: when the PRF's outputs do NOT have the length the PRF takes as key, `Setup` fails loudly as soon as
+    it reaches a keyword with at least one block — it never returns an index that answers wrongly -/
+theorem setup_loud (K : Bytes) (db : DB) (t : Tape) (hmsg : cfg.prfF.messageLength = LENGTH_UNLIMITED)
+    (hash : cfg.prfF.hashLen = 20) (hk : cfg.prfF.keyLength ≠ LENGTH_UNLIMITED)
+    (hne : (cfg.prfF.outputLength.toNat : Int) ≠ cfg.prfF.keyLength)
+    (hdb : ∃ p ∈ db, ∀ chs, cfg.pack p.2 = .ok chs → chs ≠ []) : ∃ e, setup cfg lv K db t = .error e := by
+  have key : ∀ (db : DB) (t : Tape), (∃ p ∈ db, ∀ chs, cfg.pack p.2 = .ok chs → chs ≠ []) →
+      ∃ e, encDb cfg lv K db t = .error e := by
+    intro db
+    induction db with
+    | nil => intro t ⟨p, hp, _⟩; cases hp
+    | cons q rest ih =>
+      intro t hex
+      obtain ⟨w, ids⟩ := q
+      simp only [encDb, bind, Except.bind]
+      cases htk : token cfg lv K w with
+      | error e => exact ⟨e, rfl⟩
+      | ok tk =>
+        obtain ⟨K1, K2⟩ := tk
+        simp only
+        cases hp : cfg.pack ids with
+        | error e => exact ⟨e, rfl⟩
+        | ok chs =>
+          simp only
+          -- K1 is a PRF output: it has `output_length` bytes
+          have hK1 : K1.length = cfg.prfF.outputLength.toNat := by
+            simp only [token, bind, Except.bind] at htk
+            split at htk
+            · cases htk
+            · rename_i x hx
+              split at htk
+              · cases htk
+              · simp only [pure, Except.pure] at htk
+                cases htk
+                exact (prf_ok cfg.prfF lv.hmac (by rw [hash]; exact hl.hmac_len) (by rw [hash]; decide) K _ _ hx).1
+          cases chs with
+          | nil =>
+            -- no block for this keyword: the failure comes later
+            simp only [encChunks]
+            have : ∃ p ∈ rest, ∀ chs, cfg.pack p.2 = .ok chs → chs ≠ [] := by
+              obtain ⟨p, hp', hc⟩ := hex
+              simp only [List.mem_cons] at hp'
+              rcases hp' with rfl | hp'
+              · exact absurd rfl (hc [] hp)
+              · exact ⟨p, hp', hc⟩
+            obtain ⟨e, he⟩ := ih t this
+            exact ⟨e, by simp [he]⟩
+          | cons ch more =>
+            have hcall : cfg.prfF.call lv.hmac K1 (natToBytesMin 0) = .error .valueError := by
+              unfold HmacPRF.call
+              have h1 : (cfg.prfF.keyLength != LENGTH_UNLIMITED) = true := by simpa using hk
+              have h2 : ((K1.length : Int) != cfg.prfF.keyLength) = true := by rw [hK1]; simpa using hne
+              simp [h1, h2]
+            exact ⟨.valueError, by simp [encChunks, hcall, bind, Except.bind]⟩
+  obtain ⟨e, he⟩ := key db t hdb
+  exact ⟨e, by simp [setup, he, bind, Except.bind]⟩
+
 end SSEPy.Sch.Chain
